@@ -62,6 +62,10 @@ def cases(tier, rnd):
     for k in list(codes):
         for bit in range(16):
             x = bytearray(k); x[bit // 8] ^= 1 << (bit % 8); codes.add(bytes(x))
+    for k in list(known_codes()):            # other near misses of the listed codes: bytes swapped, nibbles swapped, one more / one less
+        a, b = k[0], k[1]
+        codes |= {bytes([b, a]), bytes([(a >> 4) | ((a & 15) << 4), b]), bytes([a, (b >> 4) | ((b & 15) << 4)]), bytes([a, (b + 1) & 255]), bytes([a, (b - 1) & 255]),
+                  bytes([(a + 1) & 255, b]), bytes([(a - 1) & 255, b]), bytes([a, 0]), bytes([0, b]), bytes([a, 255])}
     codes = sorted(codes) + [world.rand_bytes(rnd, 2) for _ in range(200)]
     if tier == "thorough": codes = [bytes([a, b]) for a in range(256) for b in range(256)]
     for code in codes:
@@ -168,6 +172,24 @@ def run_then_genuine(out, rnd, junk):
                      ["%d genuine broadcasts delivered afterwards" % len(caps)] * len(keep), describe, sample=describe, classify=lambda c, i: "then-genuine/" + i[:2])
 
 
+def run_flood(out, rnd, tier):
+    """ONE bridge, a few hundred datagrams that are all to be ignored (foreign traffic on a shared port), then a genuine broadcast: all
+    of it ignored quietly - no warning of any kind, no error - and the broadcast delivered"""
+    cap = [c for c, m in zip(c05.captures(), lib.run_model([lib.req("bcast", c) for c in c05.captures()])) if "|" in m][0]
+    floods = {"random bytes of random sizes": [world.rand_bytes(rnd, rnd.randrange(0, 400)) for _ in range(260)],
+              "one datagram repeated": [b"hello switcher"] * 260,
+              "magic with other lengths": [b"\xfe\xf0" + world.rand_bytes(rnd, rnd.choice([10, 100, 160, 161, 164, 167, 200])) for _ in range(260)]}
+    names = list(floods); io = []
+    async def go():
+        for n in names:
+            junk = [d for d, e in zip(floods[n], expected(floods[n])) if e == "ignored"]
+            log, nh, nw, complete = await world.feed_bridge(1, [(0, j) for j in junk] + [(0, cap)], (), c05.show, sentinel, serial=True)
+            io.append("%d delivered, %d unknown-device warnings, other warnings %s, %d escaped exceptions%s" % (len(log), nw, world.feed_bridge.other_warnings[:2], nh, "" if complete else " (barrier lost)"))
+    asyncio.run(go())
+    lib.differential(out, "hundreds-of-foreign-datagrams-then-a-genuine-broadcast-through-one-bridge", [{"d": n.encode().hex()} for n in names], io, None,
+                     ["1 delivered, 0 unknown-device warnings, other warnings [], 0 escaped exceptions"] * len(names), lambda c: "flood of " + bytes.fromhex(c["d"]).decode(), sample=lambda c: c)
+
+
 def run(tier, rnd, out):
     corpus = lib.load_corpus("C06")
     if corpus: run_direct(out, "corpus", [bytes.fromhex(c["d"]) for c in corpus])
@@ -182,6 +204,7 @@ def run(tier, rnd, out):
     run_bridge(out, "through-a-running-bridge", [b"", b"\0", b"\xfe", b"\xfe\xf0"] + rnd.sample(cs, 60 if tier == "quick" else 600) + longer)
     run_then_genuine(out, rnd, [b"", b"\0", b"\xfe\xf0", b"\xfe\xf0" + bytes(163), world.rand_bytes(rnd, 165), world.rand_bytes(rnd, 1400)] + rnd.sample(cs, 10 if tier == "quick" else 200))
     run_pairs(out, rnd)
+    run_flood(out, rnd, tier)
     out.exhaustive = tier == "thorough"
     out.notes.append("thorough enumerates all 65536 model codes on each accepted length")
 
